@@ -161,6 +161,23 @@ PLANS = {
                                              "known findings D12 (window without boundary) and D13 (back-track limit) only through their probes; "
                                              "small-window / long-text cases that fall into the D12 region are counted, not judged"],
     },
+    "C15": lambda tier: {
+        "level": "exploration",
+        "stages": [main_stage(40, 300, tier)],
+        "require": ["wellformed_numerals_checked", "shape_plain", "shape_plain+separators", "shape_plain+fraction", "shape_units",
+                    "shape_units+fraction", "mutated_numerals_checked", "joined_tokens_evaluated", "probe_scenarios"],
+        "rule": "numerals generated FROM A VALUE: plain digit strings of 1-60 Arabic / kanji digits with optional thousands separators and "
+                "fraction (leading zeros kept), and unit numerals with up to four 10^4 groups (兆 億 万 ones; groups written with 千百十 with "
+                "or without leading 一, or as plain digits; optional fraction after a final digit); 1-3 numerals per text separated by context "
+                "words, half-width or full-width spelling (with the default input-text plugin); dictionary = one numeral-POS word per digit / "
+                "unit and one symbol word per separator / point, so every multi-character token is a join. Well-formed: exactly one token "
+                "covering the numeral whose normalized_form is the expected rendering. Mutated (1 in 4): every joined token is re-evaluated "
+                "by an independent evaluator: well-formed -> value must match, clearly malformed (separator groups, dangling / adjacent "
+                "points, small units out of order) -> must not exist, unspecified shapes counted. distinct_nontrivial = distinct "
+                "well-formed numerals that were joined with the right value",
+        "assumptions": COMMON_ASSUMPTIONS + ["repeated large units (known finding D22) are judged only through the labelled probe",
+                                             "a fraction directly after a unit and decimal coefficients of large units are 'unspecified'"],
+    },
 }
 
 
